@@ -214,10 +214,13 @@ def _branch_and_price(
     total_cg_iters = 0
 
     # Solve root node LP via column generation
-    x_vals, lp_obj, cg_iters = _solve_node_lp(
+    x_vals, lp_obj, cg_iters, converged = _solve_node_lp(
         columns, column_set, demands, {}, pricing_fn, is_cutting_stock, max_iter, eps
     )
     total_cg_iters += cg_iters
+    # A node LP value is a valid lower bound only if its column generation converged;
+    # once one did not, the search can no longer prove optimality.
+    bounds_proven = converged
 
     if lp_obj == float("inf"):
         return Result(None, float("inf"), 0, total_cg_iters, Status.INFEASIBLE)
@@ -226,7 +229,8 @@ def _branch_and_price(
     frac_idx, frac_val = _most_fractional(x_vals, eps)
     if frac_idx is None:
         solution = _build_solution(x_vals, columns, eps)
-        return Result(solution, float(sum(solution.values())), 0, total_cg_iters, Status.OPTIMAL)
+        root_status = Status.OPTIMAL if converged else Status.FEASIBLE
+        return Result(solution, float(sum(solution.values())), 0, total_cg_iters, root_status)
 
     # Initialize B&B
     best_solution: dict[tuple[int, ...], int] | None = None
@@ -254,11 +258,13 @@ def _branch_and_price(
         col_bounds = {idx: (lo, hi) for idx, lo, hi in node.column_bounds}
 
         # Solve node LP with column generation
-        x_vals, lp_obj, cg_iters = _solve_node_lp(
+        x_vals, lp_obj, cg_iters, converged = _solve_node_lp(
             columns, column_set, demands, col_bounds, pricing_fn, is_cutting_stock, max_iter, eps
         )
         total_cg_iters += cg_iters
         nodes_explored += 1
+        if not converged:
+            bounds_proven = False
 
         if report_progress(on_progress, progress_interval, nodes_explored, lp_obj, best_obj, total_cg_iters):
             break
@@ -280,7 +286,7 @@ def _branch_and_price(
 
                 # Check gap
                 gap = (best_obj - lp_obj) / max(abs(best_obj), 1e-10)
-                if gap < gap_tol:
+                if gap < gap_tol and bounds_proven:
                     return Result(best_solution, best_obj, nodes_explored, total_cg_iters, Status.OPTIMAL)
             continue
 
@@ -302,19 +308,22 @@ def _branch_and_price(
     if best_solution is None:
         return Result(None, float("inf"), nodes_explored, total_cg_iters, Status.INFEASIBLE)
 
-    status = Status.OPTIMAL if not tree else Status.FEASIBLE
+    status = Status.OPTIMAL if not tree and bounds_proven else Status.FEASIBLE
     return Result(best_solution, best_obj, nodes_explored, total_cg_iters, status)
 
 
 def _solve_node_lp(columns, column_set, demands, col_bounds, pricing_fn, is_cutting_stock, max_iter, eps):
     """Solve LP relaxation at a B&B node via column generation."""
     cg_iters = 0
+    converged = False  # True once pricing proves that no improving column exists
 
     for _ in range(max_iter):
         x_vals, duals, lp_obj = _solve_bounded_master_lp(columns, demands, col_bounds, eps)
 
         if lp_obj == float("inf"):
-            return x_vals, lp_obj, cg_iters
+            # Infeasible with the columns generated so far; columns that would restore
+            # feasibility are not priced, so this proves nothing about the node.
+            return x_vals, lp_obj, cg_iters, False
 
         # Pricing
         new_col, pricing_value = pricing_fn(duals)
@@ -322,20 +331,27 @@ def _solve_node_lp(columns, column_set, demands, col_bounds, pricing_fn, is_cutt
         # Check reduced cost
         if is_cutting_stock:
             if pricing_value <= 1.0 + eps:
+                converged = True
                 break
         else:
             if new_col is None or pricing_value >= -eps:
+                converged = True
                 break
 
-        if new_col is not None and new_col not in column_set:
-            columns.append(new_col)
-            column_set.add(new_col)
+        if new_col is None or new_col in column_set:
+            # Pricing only sees the demand duals: a column it keeps proposing although the
+            # master already has it (typically one held down by a branching bound) cannot
+            # be added again, so this node's column generation cannot converge.
+            break
+
+        columns.append(new_col)
+        column_set.add(new_col)
 
         cg_iters += 1
 
     # Final solve
     x_vals, duals, lp_obj = _solve_bounded_master_lp(columns, demands, col_bounds, eps)
-    return x_vals, lp_obj, cg_iters
+    return x_vals, lp_obj, cg_iters, converged
 
 
 def _solve_bounded_master_lp(columns, demands, col_bounds, eps):
